@@ -2,6 +2,7 @@ import Dhlldv.Real
 import Dhlldv.Gen.Stratified
 import Dhlldv.Lemmas.Interp
 import Dhlldv.Lemmas.InterpMonoInc
+import Dhlldv.Lemmas.SegmentArea
 import Mathlib.Analysis.Real.Pi.Bounds
 import Mathlib.Tactic.Ring
 import Mathlib.Tactic.NormNum
@@ -95,3 +96,66 @@ theorem C19_beta_strictMono (c1 c2 : ℝ) (h0 : 0 ≤ c1) (h12 : c1 < c2) (h1 : 
   refine ⟨hlt, ?_, ?_⟩
   · rw [hp] at lo1; exact lo1
   · rw [hl] at hi2; exact hi2
+
+
+/-! ## Accuracy of the tabulated half-angle against the exact circular segment — as theorems
+
+`SegArea.segF β = (β − sin β cos β)/π`. At the 33 nodes `sin 2β` is enclosed by 14 terms of its series (`SinEncl.sin_encl`, error ≤ 2(2β)²⁸/28! < 2e-7)
+and π by `3.141592 < π < 3.141593`; what is left per node are four inequalities between rationals. Between nodes the chord-error bound
+`(Δβ)²/(4π)` of `Lemmas/SegmentArea` applies to every real argument (the property names a 1e-5 grid; the theorem covers the continuum). -/
+
+open SinEncl in
+set_option maxRecDepth 8000 in
+/-- node clause: every row (A, β) of the regenerated table satisfies |A − (β − sin β cos β)/π| < 1e-5 -/
+theorem C19_node_accuracy :
+    ∀ p ∈ (Tbl.Arel_to_beta (α := ℝ)).pts, |p.1 - (p.2 - Real.sin p.2 * Real.cos p.2) / Real.pi| < 1e-5 := by
+  simp only [Tbl.Arel_to_beta, List.mem_cons, List.not_mem_nil, or_false, forall_eq_or_imp, forall_eq]
+  and_intros
+  all_goals
+    refine node_ok _ _ _ _ _ (sin_encl 14 _ ?_ ?_) ?_ ?_ ?_ ?_ <;>
+      norm_num [sinPoly, Finset.sum_range_succ, Nat.factorial]
+
+/-- the regenerated table meets the node predicate of `Lemmas/SegmentArea`: every node within 1e-5, neighbouring half-angles at most 0.2792527 apart -/
+theorem C19_table_nodesOK : ∃ p q rest, (Tbl.Arel_to_beta (α := ℝ)).pts = p :: q :: rest ∧
+    Interp.NodesOK SegArea.segF 1e-5 0.2792527 p (q :: rest) := by
+  refine ⟨_, _, _, rfl, ?_⟩
+  have hn : ∀ a b : ℝ, (a, b) ∈ (Tbl.Arel_to_beta (α := ℝ)).pts → |a - SegArea.segF b| ≤ 1e-5 :=
+    fun a b h => (C19_node_accuracy (a, b) h).le
+  simp only [Interp.NodesOK]
+  and_intros
+  all_goals first
+    | (apply hn; simp [Tbl.Arel_to_beta])
+    | norm_num
+
+/-- between-nodes clause, for EVERY real area fraction x in [0, 1] (not only a grid): the table lookup is defined and the half-angle it returns
+reproduces x within 0.0075 -/
+theorem C19_between_nodes (x : ℝ) (h0 : 0 ≤ x) (h1 : x ≤ 1) :
+    ∃ b, (Tbl.Arel_to_beta (α := ℝ)).lookup x = some b ∧ |x - (b - Real.sin b * Real.cos b) / Real.pi| < 0.0075 := by
+  obtain ⟨p, q, rest, ht, hinc, hp, hl⟩ := C19_table_inc
+  obtain ⟨p', q', rest', ht', hok⟩ := C19_table_nodesOK
+  rw [ht] at ht'
+  obtain ⟨rfl, rfl, rfl⟩ : p = p' ∧ q = q' ∧ rest = rest' := by
+    simp only [List.cons.injEq] at ht'; exact ⟨ht'.1, ht'.2.1, ht'.2.2⟩
+  have x0 : p.1 ≤ x := by rw [hp]; exact h0
+  have x1 : x ≤ (Interp.lastPt p (q :: rest)).1 := by rw [hl]; exact h1
+  obtain ⟨b, hF, hb⟩ := Interp.F_area 1e-5 0.2792527 (q :: rest) p x hinc hok x0 x1
+  refine ⟨b, by rw [Interp.lookup_eq_F_inc _ p q rest ht hinc x x0 x1]; exact hF, ?_⟩
+  have hpi := Real.pi_gt_d6
+  have hw : (0.2792527 : ℝ) ^ 2 / (4 * Real.pi) < 0.00621 := by
+    rw [div_lt_iff₀ (by positivity)]; norm_num; linarith
+  have : |x - SegArea.segF b| < 0.0075 := by
+    refine lt_of_le_of_lt hb ?_
+    norm_num at hw ⊢; linarith
+  exact this
+
+/-- the same for the half-angle the code uses: for every bed concentration 0 ≤ Cvs ≤ Cvb, `stratified.beta Cvs` reproduces Cvs/Cvb within 0.0075 -/
+theorem C19_beta_reproduces_area (c : ℝ) (h0 : 0 ≤ c) (h1 : c ≤ 0.6) :
+    |c / (Cst.Cvb : ℝ) - (stratified.beta c - Real.sin (stratified.beta c) * Real.cos (stratified.beta c)) / Real.pi| < 0.0075 := by
+  have hb : (Cst.Cvb : ℝ) = 0.6 := rfl
+  have x0 : 0 ≤ c / (Cst.Cvb : ℝ) := by rw [hb]; exact div_nonneg h0 (by norm_num)
+  have x1 : c / (Cst.Cvb : ℝ) ≤ 1 := by rw [hb, div_le_one (by norm_num)]; exact h1
+  obtain ⟨b, e, hb'⟩ := C19_between_nodes _ x0 x1
+  rw [C19_beta_is_lookup]
+  unfold InterpTable.at
+  rw [e]
+  exact hb'
